@@ -286,12 +286,13 @@ static int write_user_data()
 	cjet_ssize_t written = 0;
 	cjet_ssize_t to_write = strlen(data);
 	while (written < to_write) {
-		written = write(password_file, data, to_write);
-		if (written < 0) {
+		cjet_ssize_t ret = write(password_file, data + written, to_write - written);
+		if (ret < 0) {
 			log_err("Could not write password file\n");
+			cjet_free(data);
 			return -1;
 		}
-		to_write -= written;
+		written += ret;
 	}
 
 	cjet_free(data);
